@@ -3,4 +3,5 @@
 #![cfg(kani)]
 
 pub mod common;
+mod c14;
 mod c17;
